@@ -667,6 +667,11 @@ def process_block(blk, emitted_items):
         if it["kind"] != "fn":
             raise TemplateError("slice of a non-fn")
         body = it["text"][it["open"]:]
+        if a.get("body"):
+            # the whole body of the function (used to lift a trait-impl method with `self.x` turned into parameters)
+            mb0 = mask(body)
+            a = dict(a)
+            a["_range"] = (1, match_close(mb0, 0))
         if a.get("block_after"):
             # the slice is the inside of the first brace group that follows the anchor (e.g. a closure body)
             anc = a["block_after"]
